@@ -209,3 +209,26 @@ Theorem scan_pack_stable pack g : (S (List.length pack) <= g)%nat ->
 Proof. intros Hg count. apply scan_entries_stable; [lia|exact Hg]. Qed.
 
 End Scan.
+
+(* ---------------------------------------------------------------- re-exported by Properties/C53.v *)
+Theorem c53_pack_total :
+  (forall first r g, (11 <= g)%nat ->
+     (let size := N.land first 15 in if N.land first 128 =? 0 then Some (size, r) else size_cont g r size 4) = entry_size first r) /\
+  (forall r g, (10 <= g)%nat ->
+     match r with
+     | [] => None
+     | c :: r' => if N.land c 128 =? 0 then Some (N.land c 127, r') else vwint_cont g r' (N.land c 127)
+     end = vwint r) /\
+  (forall r g, (10 <= g)%nat -> leb128 g r 0 0 = leb128 10 r 0 0) /\
+  (forall src f d remaining out g, (List.length d < f)%nat -> (f <= g)%nat ->
+     delta_loop g src d remaining out = delta_loop f src d remaining out) /\
+  (forall hs Hsz inflate crc32 pack count g, (S (List.length pack) <= g)%nat ->
+     scan_entries hs Hsz inflate crc32 g pack count 0 12 [] = scan_entries hs Hsz inflate crc32 (S (List.length pack)) pack count 0 12 []).
+Proof.
+  repeat split.
+  - apply entry_size_stable.
+  - apply vwint_stable.
+  - apply leb128_10_stable.
+  - intros. apply delta_loop_stable; assumption.
+  - intros. apply scan_pack_stable. assumption.
+Qed.
